@@ -103,6 +103,12 @@ _MOD = None
 def _worker_init(modname):
     global _MOD
     signal.signal(signal.SIGINT, signal.SIG_IGN)
+    try:        # a run-away allocation in the code under test becomes a MemoryError in that worker, not an OOM kill
+        import resource
+        cap = int(float(os.environ.get("VERIF_WORKER_MEM_GB", "6")) * (1 << 30))
+        resource.setrlimit(resource.RLIMIT_AS, (cap, cap))
+    except Exception:
+        pass
     bind_repo()
     import importlib
     _MOD = importlib.import_module(modname)
